@@ -596,6 +596,9 @@ struct UdpObs {
     assoc_err: Option<String>,
     /// SOCKS5: datagrams with FRAG != 0 sent (a relay without reassembly must drop them, RFC 1928 section 7), how many of them
     /// were nevertheless answered by the target, and ordinary datagrams sent / replies received AFTER the fragments
+    /// requests that ask the target for one EMPTY datagram in reply / empty replies that arrived
+    empty_asked: usize,
+    empty_got: usize,
     fragments_sent: usize,
     fragments_answered: usize,
     after_frag_sent: usize,
@@ -618,6 +621,11 @@ async fn udp_target(sock: UdpSocket, marker: u8) {
         if b[9] & 0x80 != 0 {
             // "reply to where you first heard from me"
             from = first;
+        }
+        if b[9] & 0x40 != 0 {
+            // "answer with one empty datagram" (a keep-alive style reply): legal UDP, nothing to tag
+            sock.send_to(&[], from).await.ok();
+            continue;
         }
         // byte 9 of the request says how many replies (0..=3)
         let k = b[9] % 4;
@@ -711,6 +719,30 @@ async fn udp_client(env: Arc<Env>, seed: u64, cid: u64, socks5: bool, n: usize, 
         collect(&sock, dest, socks5, cid, &expected, &mut seen, &mut o, deadline).await;
     }
     collect(&sock, dest, socks5, cid, &expected, &mut seen, &mut o, Instant::now() + Duration::from_millis(400)).await;
+    {
+        // replies of length zero (legal UDP; a keep-alive or an empty answer): each must come through like any other
+        for k in 0..4u32 {
+            let seq = n as u32 + 400 + k;
+            let mut req = cid.to_be_bytes().to_vec();
+            req.push((seq & 0xff) as u8);
+            req.push(0x40);
+            req.extend(seq.to_be_bytes());
+            req.extend(prf_vec(mix(seed, cid * 1000 + u64::from(seq)), 0, 12));
+            let wire = if socks5 {
+                let mut w = vec![0u8, 0, 0, 1, 127, 0, 0, 1];
+                w.extend(env.udp_target_port.to_be_bytes());
+                w.extend(&req);
+                w
+            } else {
+                req.clone()
+            };
+            if sock.send_to(&wire, dest).await.is_ok() {
+                o.empty_asked += 1;
+            }
+            collect(&sock, dest, socks5, cid, &expected, &mut seen, &mut o, Instant::now() + Duration::from_millis(80)).await;
+        }
+        collect(&sock, dest, socks5, cid, &expected, &mut seen, &mut o, Instant::now() + Duration::from_millis(250)).await;
+    }
     if socks5 {
         // a datagram with FRAG != 0 (legal; an implementation that does not reassemble MUST drop it and nothing else): the
         // association must go on serving ordinary datagrams afterwards
@@ -860,6 +892,10 @@ async fn collect(sock: &UdpSocket, dest: SocketAddr, socks5: bool, cid: u64, exp
         } else {
             &b[..n]
         };
+        if payload.is_empty() {
+            o.empty_got += 1;
+            continue;
+        }
         o.replies += 1;
         if payload.len() < 16 || (payload[0] != b'R' && payload[0] != b'S') {
             o.corrupted += 1;
@@ -1217,6 +1253,16 @@ fn judge(st: &mut Stats, seed: u64, out: &RunOut) {
             st.target("udp_flows_resumed_after_idle", 1);
             if o.after_idle_sent >= 5 && o.after_idle_replies == 0 {
                 st.violation(Violation { signature: format!("udp-flow-dead-after-idle|{kind}"), detail: format!("the local socket was silent for 11 s and then sent {} datagrams at 200 ms intervals: not one reply came back although the exchange worked before the pause ({} replies): the flow stays black-holed", o.after_idle_sent, o.replies - o.after_idle_replies), replay: replay() });
+            }
+        }
+        if o.empty_asked > 0 {
+            st.target("udp_empty_replies_asked_for", o.empty_asked as u64);
+            st.count("udp_empty_replies_received", o.empty_got as u64);
+            if o.empty_got > o.empty_asked {
+                st.violation(Violation { signature: format!("udp-empty-reply-unaccounted|{kind}"), detail: format!("client {cid} asked for {} empty replies and received {} empty datagrams (another client's reply, or a duplicate)", o.empty_asked, o.empty_got), replay: replay() });
+            }
+            if o.empty_asked >= 4 && o.empty_got == 0 && o.replies > 0 {
+                st.violation(Violation { signature: format!("udp-empty-reply-lost|{kind}"), detail: format!("the target answered {} requests with a zero-length datagram each (80 ms apart): not one of them reached the local client, while {} non-empty replies did", o.empty_asked, o.replies), replay: replay() });
             }
         }
         if o.fragments_sent > 0 {
